@@ -85,7 +85,7 @@ func c09eCall(call *ast.CallExpr, mv *c09eMv, inline map[string]*ast.FuncDecl, d
 		}
 		return c09eWalk(inline[t].Body.List, nil, mv, inline, depth+1)
 	case c09eReOtherSt.MatchString(t), strings.HasPrefix(t, "log."), strings.HasPrefix(t, "atomic.AddUint64(&"),
-		strings.HasPrefix(t, "variable.Set("), t == "p.mux.Lock()", t == "p.mux.Unlock()":
+		strings.HasPrefix(t, "variable.Set("), t == "p.mux.Lock()", t == "p.mux.Unlock()", strings.HasPrefix(t, "verifMuxYield("):
 		// other statistics, totals, context variables, logging, the pool mutex: not conserved quantities
 	default:
 		return fmt.Errorf("statement `%s` is not read", t)
@@ -172,6 +172,9 @@ func c09eWalk(stmts []ast.Stmt, oneway *bool, mv *c09eMv, inline map[string]*ast
 				case l == "_" && strings.HasPrefix(r, "variable.Set("):
 					continue
 				case (r == "p.Host()" || r == "ac.pool.Host()") && x.Tok == token.DEFINE:
+					continue
+				case l == "end" && r == "&multiplexStreamEnd{…}" && x.Tok == token.DEFINE:
+					// the per-stream listener of the multiplex pool (its shape is read by Gen/PoolDestroyMx)
 					continue
 				}
 			}
